@@ -308,6 +308,10 @@ class ContractMixin:
             ty = args[0].obj if isinstance(args[0], Callable_) else args[0]
             nm = z3.simplify(args[1].t).as_string()
             return Val(ty, [z3.Const("ghost!%s!%d" % (nm, i), srt) for i, srt in enumerate(ty.comps())])
+        if name == "as_any":
+            return coerce(args[0], TOpaque("Any"))
+        if name == "as_data":
+            return coerce(args[0], TOpaque("Data"))
         if name == "raised":
             # a field (keyword argument) of the exception object that is leaving the function (only inside an "onraise:" clause)
             exc = getattr(self, "cur_exc", None)
